@@ -158,6 +158,7 @@ type recCtx struct {
 	idOfHash map[common.Hash]int
 	fail     func(sig, what string)
 	cw       *hlib.CaseWriter
+	guard    *aliasGuard // alias.go: content of the handed objects, and an Append-like use of every collected set
 }
 
 func txsOfZone(z *rZone) types.Transactions {
@@ -320,6 +321,9 @@ func recoverPhase(c *recCtx) map[*rBlock][]types.Transactions {
 				}
 			}
 			l, err := node.CollectNewlyConfirmedEtxs(b.wo, b.order)
+			if c.guard != nil {
+				c.guard.use(l, fmt.Sprintf("CollectNewlyConfirmedEtxs of block %d during recovery", b.id))
+			}
 			cls := classifyCollectErr(err)
 			rounds = append(rounds, fmt.Sprintf("(%d,%d,%d,%s)", b.id, b.order, cls, idsOf(l)))
 			if cls == 0 {
